@@ -85,7 +85,7 @@ TEXT = {
              "every built-in command and of work + each subcommand, for every line, every JSON decoding and every unit-index state; "
              "no_wait_cycle / no_control_command_deadlock: the lock requests the source can make while holding a lock (regenerated "
              "with go/types, interprocedural, callbacks and deferred calls included) all go upwards in one order, hence no deadlock "
-             "among them for any number of threads. Tie: regenerated facts (guards, reader loop, dispatch, command table, all parser "
+             "among them for any number of threads. Tie: regenerated facts (no lock left held on a return path in pkg/controlsvc and pkg/workceptor, guards, reader loop, dispatch, command table, all parser "
              "messages, lock-request edges with their sites, the accept loop starting one goroutine per connection and nothing else) + "
              "the control service on a TLS TCP listener with clients that never start the handshake (new clients must be greeted at "
              "once) + differential runs of the real Server + Workceptor over a Unix socket in "
